@@ -12,6 +12,8 @@ package eventbus
 //@ event OnPersistComplete := call Observability.OnPersistComplete
 //@ event cancel := call context.CancelFunc
 
+//@ event lockShard := call lock:shard.mu
+//@ event unlockShard := call unlock:shard.mu
 //@ event handlerCall := call handler
 //@ event panicHandlerCall := call PanicHandler
 //@ event OnHandlerStart := call Observability.OnHandlerStart
@@ -105,12 +107,24 @@ package eventbus
 //@ method Observability.OnPersistComplete(obs, ctx, duration, err)
 //@   effect opaque
 
-//@ immutable internalHandler.handler internalHandler.handlerType internalHandler.eventType internalHandler.once
-//@ immutable internalHandler.async internalHandler.sequential internalHandler.acceptsContext internalHandler.filter
+// Fields that never change once the object is reachable by other code.  The
+// package-wide scan `package#immutable.*` checks that only the listed
+// init-writers (option literals, constructors, configuration setters) and code
+// constructing a fresh object store to them.
+//@ immutable {C01,C02,C04,C05,C07,C08} internalHandler.handler internalHandler.handlerType internalHandler.eventType internalHandler.once
+//@ immutable {C01,C02,C04,C05,C07,C08} internalHandler.async internalHandler.sequential internalHandler.acceptsContext internalHandler.filter
+//@ initwriter Once$1 Async$1 Sequential$1 WithFilter$1
 //@ level internalHandler.mu 0
-//@ immutable EventBus.shards EventBus.panicHandler EventBus.beforePublish EventBus.afterPublish EventBus.beforePublishCtx EventBus.afterPublishCtx
-//@ immutable EventBus.store EventBus.persistenceErrorHandler EventBus.persistenceTimeout EventBus.observability
-
+//@ immutable {C01,C05,C08,C09,C13,C20} EventBus.shards EventBus.panicHandler EventBus.beforePublish EventBus.afterPublish EventBus.beforePublishCtx EventBus.afterPublishCtx
+//@ immutable {C09,C11,C12,C13,C20} EventBus.store EventBus.persistenceErrorHandler EventBus.persistenceTimeout EventBus.observability
+//@ immutable {C09,C11,C12,C16,C17} EventBus.subscriptionStore EventBus.replayBatchSize EventBus.upcastRegistry
+// Configuration: options run inside New before the bus is returned; the Set*
+// methods are the statement's "configuration setters" (excluded from C03).
+//@ initwriter New WithPanicHandler$1 WithBeforePublish$1 WithAfterPublish$1 WithBeforePublishContext$1 WithAfterPublishContext$1
+//@ initwriter WithPersistenceErrorHandler$1 WithPersistenceTimeout$1 WithReplayBatchSize$1 WithObservability$1 WithStore$1 WithSubscriptionStore$1
+//@ initwriter (*EventBus).SetPanicHandler (*EventBus).SetBeforePublishHook (*EventBus).SetAfterPublishHook (*EventBus).SetPersistenceErrorHandler
+// executed: only ever CompareAndSwap(0,1)
+//@ atomic {C02,C03,C04,C05} internalHandler.executed
 //@ guarded shard.handlers by shard.mu
 //@ level shard.mu 1
 //@ guarded EventBus.lastOffset by EventBus.storeMu
@@ -181,8 +195,20 @@ package eventbus
 //@ def filterOK(h, ev) h.filter == nil || dynType(h.filter) != typeOf(func(T) bool) || accepts(payload(h.filter), ev)
 
 // RegInv: what shard.mu protects.
-//@ lockinv shard.mu(s) [RegInv] {C01,C02} s.handlers != nil &&
-//@     (forall t type, i int :: 0 <= i && i < len(s.handlers[t]) ==> s.handlers[t][i] != nil && regTyped(s.handlers[t][i], t))
+//@ lockinv shard.mu(s) [RegInv.typed] {C01,C02} s.handlers != nil &&
+//@     (forall t type, i int :: {s.handlers[t][i]} 0 <= i && i < len(s.handlers[t]) ==> s.handlers[t][i] != nil && regTyped(s.handlers[t][i], t))
+//@ lockinv shard.mu(s) [RegInv.disjoint] {C01,C02} forall t1 type, t2 type :: t1 != t2 && sarr(s.handlers[t1]) != 0 ==> sarr(s.handlers[t1]) != sarr(s.handlers[t2])
+//@ lockinv shard.mu(s) [RegInv.alloc] {C01,C02} forall t type :: sarr(s.handlers[t]) == 0 || allocated(sarr(s.handlers[t]))
+
+// Subscribe options: the only values of this type are nil and the four
+// literals below (internalHandler is unexported); each assigns its own field.
+//@ callback SubscribeOption(fn, h)
+//@   effect fields h once async sequential filter
+//@   effectstruct internalHandler
+//@   ensures h.filter == nil || payload(h.filter) != 0
+//@ callback Option(fn, bus)
+//@   effect fields bus panicHandler beforePublish afterPublish beforePublishCtx afterPublishCtx store subscriptionStore persistenceErrorHandler persistenceTimeout replayBatchSize observability
+//@   effectstruct EventBus
 
 //@ func (*EventBus).getShard
 //@   props C01 C02
@@ -246,3 +272,90 @@ package eventbus
 //@   ensures [args] cnt(deliver) == 1 ==> lastarg(deliver, 0) == handler && lastarg(deliver, 1, Iface) == ctx && lastarg(deliver, 2) == event
 //@        && lastarg(deliver, 3) == bus.panicHandler && lastarg(deliver, 4, Iface) == bus.observability
 //@        && lastarg(deliver, 5, String) == eventTypeName && lastarg(deliver, 6, Bool) == true
+
+// ---------------------------------------------------------------- registry ops
+//@ func Subscribe
+//@   props C01 C02
+//@   requires bus != nil ==> BusInv(bus)
+//@   ensures [err] (err == nil) ==> bus != nil && handler != nil
+//@   ensures [err.invalid] bus == nil || handler == nil ==> err != nil && cnt(lockShard) == 0
+//@   ensures [cs.single] {C02} err == nil ==> cnt(lockShard) == 1 && cnt(unlockShard) == 1
+//@   ensures [err.noeffect] {C01,C02} err != nil ==> cnt(lockShard) == 0
+//@   loop 1 invariant [idx] rangeindex < len(opts) && -1 <= rangeindex
+//@   loop 1 invariant [filter] h.filter == nil || payload(h.filter) != 0
+//@   at unlock:shard.mu assert [cs.append] {C01,C02} len(shard.handlers[eventType]) == len(acq(shard.handlers[eventType])) + 1 &&
+//@        shard.handlers[eventType][len(shard.handlers[eventType]) - 1] == h &&
+//@        (forall i int :: 0 <= i && i < len(acq(shard.handlers[eventType])) ==> shard.handlers[eventType][i] == acq(shard.handlers[eventType][i]))
+//@   at unlock:shard.mu assert [cs.frame] {C01,C02} forall t type, i int :: t != eventType && 0 <= i && i < len(acq(shard.handlers[t])) ==>
+//@        len(shard.handlers[t]) == len(acq(shard.handlers[t])) && shard.handlers[t][i] == acq(shard.handlers[t][i])
+//@   at unlock:shard.mu assert [cs.shard] {C01,C02} shard == bus.shards[shardIdx(typeOf(T))] && eventType == typeOf(T)
+//@   at unlock:shard.mu assert [cs.newhandler] {C01,C02} payload(h.handler) == handler && dynType(h.handler) == typeOf(Handler[T]) && h.eventType == typeOf(T) && !h.acceptsContext
+//@        && fresh(h)
+
+//@ func SubscribeContext
+//@   props C01 C02
+//@   requires bus != nil ==> BusInv(bus)
+//@   ensures [err] (err == nil) ==> bus != nil && handler != nil
+//@   ensures [err.invalid] bus == nil || handler == nil ==> err != nil && cnt(lockShard) == 0
+//@   ensures [cs.single] {C02} err == nil ==> cnt(lockShard) == 1 && cnt(unlockShard) == 1
+//@   ensures [err.noeffect] {C01,C02} err != nil ==> cnt(lockShard) == 0
+//@   loop 1 invariant [idx] rangeindex < len(opts) && -1 <= rangeindex
+//@   loop 1 invariant [filter] h.filter == nil || payload(h.filter) != 0
+//@   at unlock:shard.mu assert [cs.append] {C01,C02} len(shard.handlers[eventType]) == len(acq(shard.handlers[eventType])) + 1 &&
+//@        shard.handlers[eventType][len(shard.handlers[eventType]) - 1] == h &&
+//@        (forall i int :: 0 <= i && i < len(acq(shard.handlers[eventType])) ==> shard.handlers[eventType][i] == acq(shard.handlers[eventType][i]))
+//@   at unlock:shard.mu assert [cs.frame] {C01,C02} forall t type, i int :: t != eventType && 0 <= i && i < len(acq(shard.handlers[t])) ==>
+//@        len(shard.handlers[t]) == len(acq(shard.handlers[t])) && shard.handlers[t][i] == acq(shard.handlers[t][i])
+//@   at unlock:shard.mu assert [cs.shard] {C01,C02} shard == bus.shards[shardIdx(typeOf(T))] && eventType == typeOf(T)
+//@   at unlock:shard.mu assert [cs.newhandler] {C01,C02} payload(h.handler) == handler && dynType(h.handler) == typeOf(ContextHandler[T]) && h.eventType == typeOf(T) && h.acceptsContext
+//@        && fresh(h)
+
+//@ func HandlerCount
+//@   props C01 C02
+//@   requires bus != nil && BusInv(bus)
+//@   ensures [cs.result] result == len(acq(shard.handlers[eventType])) && shard == bus.shards[shardIdx(typeOf(T))] && eventType == typeOf(T)
+//@   ensures [cs.single] {C02} cnt(lockShard) == 1 && cnt(unlockShard) == 1
+
+//@ func HasHandlers
+//@   props C01 C02
+//@   requires bus != nil && BusInv(bus)
+//@   ensures [cs.result] (result <==> len(acq(shard.handlers[eventType])) > 0) && shard == bus.shards[shardIdx(typeOf(T))] && eventType == typeOf(T)
+//@   ensures [cs.single] {C02} cnt(lockShard) == 1 && cnt(unlockShard) == 1
+
+//@ func Clear
+//@   props C01 C02
+//@   requires bus != nil && BusInv(bus)
+//@   ensures [cs.single] {C02} cnt(lockShard) == 1 && cnt(unlockShard) == 1
+//@   at unlock:shard.mu assert [cs.clear] {C01,C02} len(shard.handlers[eventType]) == 0 && shard == bus.shards[shardIdx(typeOf(T))] && eventType == typeOf(T)
+//@   at unlock:shard.mu assert [cs.frame] {C01,C02} forall t type, i int :: t != eventType && 0 <= i && i < len(acq(shard.handlers[t])) ==>
+//@        len(shard.handlers[t]) == len(acq(shard.handlers[t])) && shard.handlers[t][i] == acq(shard.handlers[t][i])
+
+//@ func ClearAll
+//@   props C01 C02
+//@   requires bus != nil && BusInv(bus)
+//@   loop 1 invariant [idx] 0 <= i && i <= 32 && cnt(lockShard) == i && cnt(unlockShard) == i
+//@   ensures [all] {C01,C02} cnt(lockShard) == 32 && cnt(unlockShard) == 32
+//@   at unlock:shard.mu assert [cs.clear] {C01,C02} (forall t type :: len(bus.shards[i].handlers[t]) == 0) && 0 <= i && i < 32
+
+// Unsubscribe: removes the first registration whose function pointer matches.
+// Precondition (input domain): handler is a func or pointer value
+// (reflect.Value.Pointer panics otherwise).
+//@ def hptr(h) fnptr(reflValue(h.handler))
+//@ func Unsubscribe
+//@   props C01 C02
+//@   requires bus != nil && BusInv(bus)
+//@   ensures [cs.single] {C02} cnt(lockShard) == 1 && cnt(unlockShard) == 1
+//@   loop 1 invariant [idx] rangeindex < len(handlers) && -1 <= rangeindex
+//@   loop 1 invariant [nomatch] forall j int :: 0 <= j && j <= rangeindex ==> hptr(handlers[j]) != handlerPtr
+//@   at unlock:shard.mu assert [cs.shard] {C01,C02} shard == bus.shards[shardIdx(typeOf(T))] && eventType == typeOf(T)
+//@   at unlock:shard.mu assert [cs.removeFirst] {C01,C02} err == nil ==>
+//@        0 <= i && i < len(acq(shard.handlers[eventType])) && hptr(acq(shard.handlers[eventType][i])) == handlerPtr &&
+//@        (forall j int :: 0 <= j && j < i ==> hptr(acq(shard.handlers[eventType][j])) != handlerPtr) &&
+//@        len(shard.handlers[eventType]) == len(acq(shard.handlers[eventType])) - 1 &&
+//@        (forall j int :: {shard.handlers[eventType][j]} 0 <= j && j < i ==> shard.handlers[eventType][j] == acq(shard.handlers[eventType][j])) &&
+//@        (forall j int :: {shard.handlers[eventType][j]} i <= j && j < len(shard.handlers[eventType]) ==> shard.handlers[eventType][j] == acq(shard.handlers[eventType][j+1]))
+//@   at unlock:shard.mu assert [cs.notfound] {C01,C02} err != nil ==>
+//@        len(shard.handlers[eventType]) == len(acq(shard.handlers[eventType])) &&
+//@        (forall j int :: 0 <= j && j < len(acq(shard.handlers[eventType])) ==> shard.handlers[eventType][j] == acq(shard.handlers[eventType][j]) && hptr(acq(shard.handlers[eventType][j])) != handlerPtr)
+//@   at unlock:shard.mu assert [cs.frame] {C01,C02} forall t type, k int :: {shard.handlers[t][k]} t != eventType && 0 <= k && k < len(acq(shard.handlers[t])) ==>
+//@        len(shard.handlers[t]) == len(acq(shard.handlers[t])) && shard.handlers[t][k] == acq(shard.handlers[t][k])
